@@ -1141,6 +1141,38 @@ fn case_squant(r: &mut Rng, out: &mut Out) {
         tags: vec!["squant-grid".into()],
         ..Default::default()
     });
+    // asymmetric / u8 distances on the same grid (query near the dequantised vector so that f32 stays exact)
+    {
+        let es_small: Vec<i64> = es.iter().map(|e| (*e).min(2)).collect();
+        let maxs2: Vec<i64> = (0..dim).map(|i| mins[i] + 255 * (1 << es_small[i])).collect();
+        let q2 = ScalarQuantizer::with_ranges(mins.iter().map(|&x| x as f32).collect(), maxs2.iter().map(|&x| x as f32).collect());
+        let codes2 = q2.quantize(&fv);
+        let deq2 = q2.dequantize(&codes2);
+        let query: Vec<i64> = (0..dim).map(|i| deq2[i] as i64 + r.range(-30, 30)).collect();
+        let fquery: Vec<f32> = query.iter().map(|&x| x as f32).collect();
+        let other: Vec<u8> = codes2.iter().map(|&c| (c as i64 + r.range(-10, 10)).clamp(0, 255) as u8).collect();
+        let asym = q2.asymmetric_distance_squared(&fquery, &codes2);
+        let d8 = q2.distance_squared_u8(&codes2, &other);
+        // oracle: recomputation in integers; the stored vector's own asymmetric distance is within one step per coordinate
+        let want_asym: i64 = (0..dim).map(|i| (query[i] - deq2[i] as i64).pow(2)).sum();
+        let want_d8: i64 = (0..dim).map(|i| (codes2[i] as i64 - other[i] as i64).pow(2) * (1i64 << (2 * es_small[i]))).sum();
+        let ok3 = asym == want_asym as f32 && d8 == want_d8 as f32 && (q2.asymmetric_distance(&fquery, &codes2) - (want_asym as f32).sqrt()).abs() <= 1e-3;
+        let u = |v: &[u8]| uvec(&v.iter().map(|&c| c as u64).collect::<Vec<_>>());
+        out.emit(&Case {
+            kind: "scalar-quant-dist".into(),
+            input: format!("mins={:?} es={:?} v={:?} query={:?} other={:?}", mins, es_small, v, query, other),
+            coq: Some(format!(
+                "chk_squant_dist {} {} {} {} {} {} {} {}",
+                zvec(&mins), zvec(&es_small), zvec(&query), u(&codes2), u(&codes2), u(&other), bits(asym), bits(d8)
+            )),
+            oracle: if ok3 { Oracle::Ok } else { Oracle::Fail },
+            msg: if ok3 { String::new() } else { format!("asymmetric_distance_squared={} (exact {}), distance_squared_u8={} (exact {})", asym, want_asym, d8, want_d8) },
+            nontrivial: true,
+            imp: format!("asym={} u8={}", asym, d8),
+            tags: vec!["squant-dist".into()],
+            ..Default::default()
+        });
+    }
     // support: trained quantiser on random floats, error bound (max - min)/255 (+ rounding slack)
     let n = 2 + r.below(20) as usize;
     let train: Vec<Vec<f32>> = (0..n).map(|_| (0..dim).map(|_| r.range(-100000, 100000) as f32 / 1000.0).collect()).collect();
@@ -1645,6 +1677,219 @@ fn case_operators(r: &mut Rng, out: &mut Out, forced: bool) {
     }
 }
 
+
+// ------------------------------------------------------------------------------------------ binary and product quantisers
+
+fn case_bquant(r: &mut Rng, out: &mut Out) {
+    use grafeo_core::index::vector::BinaryQuantizer;
+    use grafeo_core::index::vector::quantization::hamming_distance_simd;
+    let dim = *r.pick(&[1usize, 3, 31, 63, 64, 65, 127, 128, 130, 200]);
+    let a: Vec<i64> = (0..dim).map(|_| r.range(-2, 2)).collect();
+    let b: Vec<i64> = if r.chance(1, 5) { a.clone() } else { (0..dim).map(|i| if r.chance(1, 3) { a[i] } else { r.range(-2, 2) }).collect() };
+    let wa = BinaryQuantizer::quantize(&f32v(&a, 0));
+    let wb = BinaryQuantizer::quantize(&f32v(&b, 0));
+    let ham = BinaryQuantizer::hamming_distance(&wa, &wb);
+    let hs = hamming_distance_simd(&wa, &wb);
+    let want = (0..dim).filter(|&i| (a[i] >= 0) != (b[i] >= 0)).count() as u32;
+    let norm = BinaryQuantizer::hamming_distance_normalized(&wa, &wb, dim);
+    let ok = ham == want && hs == want && wa.len() == (dim + 63) / 64 && (norm - want as f32 / dim as f32).abs() < 1e-6;
+    out.emit(&Case {
+        kind: "binary-quant".into(),
+        input: format!("dim={} a={:?} b={:?}", dim, a, b),
+        coq: Some(format!("chk_bquant {} {} {} {} {} {}", zvec(&a), zvec(&b), uvec(&wa), uvec(&wb), ham, hs)),
+        oracle: if ok { Oracle::Ok } else { Oracle::Fail },
+        msg: if ok { String::new() } else { format!("hamming={} simd={} but {} signs differ", ham, hs, want) },
+        nontrivial: dim >= 2,
+        imp: format!("hamming={}", ham),
+        tags: vec![format!("bquant-dim={}", dim)],
+        ..Default::default()
+    });
+}
+
+fn case_pquant(r: &mut Rng, out: &mut Out) {
+    use grafeo_core::index::vector::ProductQuantizer;
+    let m = *r.pick(&[1usize, 2, 3, 4]);
+    let k = *r.pick(&[1usize, 2, 3, 5, 8, 256]);
+    let sd = *r.pick(&[1usize, 2, 3]);
+    let dim = m * sd;
+    let spread = if k == 256 { 40 } else { 4 };
+    let mut cb: Vec<Vec<Vec<i64>>> = Vec::new();
+    for _ in 0..m {
+        let mut part: Vec<Vec<i64>> = Vec::new();
+        for j in 0..k {
+            // duplicates: the first of equal centroids must win
+            let c = if j > 0 && r.chance(1, 4) { part[r.below(j as u64) as usize].clone() } else { (0..sd).map(|_| r.range(-spread, spread)).collect() };
+            part.push(c);
+        }
+        cb.push(part);
+    }
+    let flat: Vec<f32> = cb.iter().flatten().flatten().map(|&x| x as f32).collect();
+    let pq = ProductQuantizer::with_centroids(m, k, dim, flat);
+    let v: Vec<i64> = (0..dim).map(|_| r.range(-spread - 2, spread + 2)).collect();
+    let q: Vec<i64> = (0..dim).map(|_| r.range(-spread - 2, spread + 2)).collect();
+    let codes = pq.quantize(&f32v(&v, 0));
+    let table = pq.build_distance_table(&f32v(&q, 0));
+    let adc = pq.asymmetric_distance_squared(&f32v(&q, 0), &codes);
+    let recon = pq.reconstruct(&codes);
+    // oracle: every code is a nearest centroid; the table distance is the distance to the reconstruction
+    let mut ok = codes.len() == m && recon.len() == dim;
+    for p in 0..m {
+        let sub = &v[p * sd..(p + 1) * sd];
+        let dist = |c: &Vec<i64>| -> i64 { sub.iter().zip(c).map(|(x, y)| (x - y) * (x - y)).sum() };
+        let best = cb[p].iter().map(dist).min().unwrap();
+        if ok && dist(&cb[p][codes[p] as usize]) != best {
+            ok = false;
+        }
+    }
+    let want_adc: i64 = (0..dim).map(|i| (q[i] - recon.get(i).copied().unwrap_or(0.0) as i64).pow(2)).sum();
+    if adc != want_adc as f32 {
+        ok = false;
+    }
+    let cb_term = format!("[{}]", cb.iter().map(|p| format!("[{}]", p.iter().map(|c| zvec(c)).collect::<Vec<_>>().join(";"))).collect::<Vec<_>>().join(";"));
+    out.emit(&Case {
+        kind: "product-quant".into(),
+        input: format!("M={} K={} sd={} v={:?} q={:?} centroids={:?}", m, k, sd, v, q, if k <= 8 { format!("{:?}", cb) } else { "(256 per partition)".into() }),
+        coq: Some(format!(
+            "chk_pquant {} {} {} {} {} {} {} {}",
+            cb_term, sd, zvec(&v), zvec(&q),
+            uvec(&codes.iter().map(|&c| c as u64).collect::<Vec<_>>()),
+            uvec(&table.iter().map(|&t| bits(t)).collect::<Vec<_>>()),
+            bits(adc),
+            uvec(&recon.iter().map(|&t| bits(t)).collect::<Vec<_>>())
+        )),
+        oracle: if ok { Oracle::Ok } else { Oracle::Fail },
+        msg: if ok { String::new() } else { format!("codes={:?} adc={} (distance to the reconstruction {})", codes, adc, want_adc) },
+        nontrivial: k >= 2,
+        imp: format!("codes={:?} adc={}", codes, adc),
+        tags: vec![format!("pquant-M={}", m), format!("pquant-K={}", k)],
+        ..Default::default()
+    });
+}
+
+
+// ------------------------------------------------------------------------------------------ vector storage backends and zone map (oracle only)
+
+fn case_storage(r: &mut Rng, out: &mut Out) {
+    use grafeo_core::index::vector::{MmapStorage, RamStorage, VectorStorage};
+    let dim = *r.pick(&[1usize, 3, 8]);
+    let dir = tempfile::tempdir().expect("tempdir");
+    let path = dir.path().join("v.bin");
+    let use_mmap = r.chance(1, 2);
+    let cache = *r.pick(&[0usize, 1, 2, 10000]);
+    let st: Box<dyn VectorStorage> = if use_mmap {
+        Box::new(MmapStorage::create(&path, dim).expect("create").with_cache_limit(cache))
+    } else {
+        Box::new(RamStorage::new(dim))
+    };
+    let mut live: BTreeMap<u64, Vec<f32>> = BTreeMap::new();
+    let mut fail: Option<String> = None;
+    let nops = 10 + r.below(40);
+    for _ in 0..nops {
+        let id = 1 + r.below(8);
+        match r.below(10) {
+            0..=4 => {
+                let v: Vec<f32> = (0..dim).map(|_| r.range(-100, 100) as f32 / 4.0).collect();
+                if st.insert(NodeId::new(id), &v).is_err() && fail.is_none() {
+                    fail = Some("insert failed".into());
+                }
+                live.insert(id, v);
+            }
+            5 | 6 => {
+                let had = live.remove(&id).is_some();
+                if st.remove(NodeId::new(id)) != had && fail.is_none() {
+                    fail = Some(format!("remove({}) returned {}", id, !had));
+                }
+            }
+            _ => {
+                let got = st.get(NodeId::new(id));
+                let want = live.get(&id);
+                let same = match (&got, want) {
+                    (Some(g), Some(w)) => g.len() == w.len() && g.iter().zip(w).all(|(a, b)| a.to_bits() == b.to_bits()),
+                    (None, None) => true,
+                    _ => false,
+                };
+                if !same && fail.is_none() {
+                    fail = Some(format!("get({}) = {:?} but the stored vector is {:?}", id, got, want));
+                }
+                if st.contains(NodeId::new(id)) != want.is_some() && fail.is_none() {
+                    fail = Some(format!("contains({}) is wrong", id));
+                }
+            }
+        }
+        if st.len() != live.len() && fail.is_none() {
+            fail = Some(format!("len() = {} but {} vectors are stored", st.len(), live.len()));
+        }
+    }
+    // observation only (persistence is not part of C18): what a re-opened file holds
+    let mut tags = vec![format!("storage={}", if use_mmap { "mmap" } else { "ram" })];
+    if use_mmap {
+        let _ = st.flush();
+        drop(st);
+        if let Ok(re) = MmapStorage::open(&path) {
+            let same = re.len() == live.len() && live.iter().all(|(i, v)| re.get(NodeId::new(*i)).map_or(false, |g| g.iter().zip(v).all(|(a, b)| a.to_bits() == b.to_bits())));
+            tags.push(if same { "mmap-reopen-same".into() } else { "mmap-reopen-differs(observation)".into() });
+        }
+    }
+    out.emit(&Case {
+        kind: "vector-storage".into(),
+        input: format!("mmap={} cache_limit={} dim={} ops={}", use_mmap, cache, dim, nops),
+        oracle: if fail.is_some() { Oracle::Fail } else { Oracle::Ok },
+        msg: fail.unwrap_or_default(),
+        nontrivial: true,
+        imp: format!("{} stored", live.len()),
+        tags,
+        ..Default::default()
+    });
+}
+
+/// pruning must be conservative: a block holding a vector within the threshold may not be skipped
+fn case_zonemap(r: &mut Rng, out: &mut Out) {
+    use grafeo_core::index::vector::VectorZoneMap;
+    let dim = *r.pick(&[1usize, 2, 3, 8]);
+    let n = 1 + r.below(8) as usize;
+    let scale = *r.pick(&[1.0f32, 1.0, 0.01, 100.0]);
+    let vs: Vec<Vec<f32>> = (0..n).map(|_| (0..dim).map(|_| r.range(-8, 8) as f32 * scale).collect()).collect();
+    let refs: Vec<&[f32]> = vs.iter().map(|v| v.as_slice()).collect();
+    let zm = if r.chance(1, 4) && n >= 2 {
+        let mut a = VectorZoneMap::build(&refs[..n / 2]);
+        a.merge(&VectorZoneMap::build(&refs[n / 2..]));
+        a
+    } else {
+        VectorZoneMap::build(&refs)
+    };
+    let q: Vec<f32> = (0..dim).map(|_| r.range(-12, 12) as f32 * scale).collect();
+    let mut fail: Option<String> = None;
+    let mut cos_unsound = false;
+    for metric in [DistanceMetric::Euclidean, DistanceMetric::Manhattan, DistanceMetric::DotProduct, DistanceMetric::Cosine] {
+        let ds: Vec<f32> = vs.iter().map(|v| compute_distance(&q, v, metric)).collect();
+        let dmin = ds.iter().cloned().fold(f32::INFINITY, f32::min);
+        for t in [dmin, dmin + 0.5 * scale, dmin * 2.0 + 1.0, 0.0, 1e9] {
+            let holds = ds.iter().any(|d| *d <= t - 1e-3 * t.abs().max(scale));
+            if holds && !zm.might_contain_within_distance(&q, t, metric) {
+                if metric == DistanceMetric::Cosine {
+                    cos_unsound = true;
+                } else if fail.is_none() {
+                    fail = Some(format!("{} threshold {}: the block is pruned although a vector at distance {} is in it", metric.name(), t, dmin));
+                }
+            }
+        }
+    }
+    let mut tags = vec!["zonemap".into()];
+    if cos_unsound {
+        tags.push("zonemap-cosine-prunes-a-hit(observation)".into());
+    }
+    out.emit(&Case {
+        kind: "zone-map".into(),
+        input: format!("dim={} scale={} q={:?} vectors={:?}", dim, scale, q, vs),
+        oracle: if fail.is_some() { Oracle::Fail } else { Oracle::Ok },
+        msg: fail.unwrap_or_default(),
+        nontrivial: n >= 2,
+        imp: String::new(),
+        tags,
+        ..Default::default()
+    });
+}
+
 // ------------------------------------------------------------------------------------------ GrafeoDB::vector_search
 
 fn case_engine(r: &mut Rng, out: &mut Out) {
@@ -1683,6 +1928,28 @@ fn case_engine(r: &mut Rng, out: &mut Out) {
                 if check_result(mt, &mut st, &q, k, &res, "GrafeoDB::vector_search") {
                     shorts += 1;
                 }
+                // the database call is the index's search with the same k and ef, and complete for reachable vectors
+                if let Some(ix) = db.store().get_vector_index("Doc", "emb") {
+                    let direct = match ef {
+                        Some(e) => ix.search_with_ef(&f32v(&q, 0), k, e),
+                        None => ix.search(&f32v(&q, 0), k),
+                    };
+                    let same = direct.len() == res.len() && direct.iter().zip(&res).all(|(a, b)| a.0 == b.0 && a.1.to_bits() == b.1.to_bits());
+                    if !same && st.fail.is_none() {
+                        st.fail = Some(format!("vector_search(k={}, ef={:?}) differs from the index's own search", k, ef));
+                    }
+                    if let Some(d) = dump_of(&ix) {
+                        let live = &st.live;
+                        let dist = |id: u64| -> f64 { live.get(&id).map_or(f64::MAX, |v| mt.exact(&q, v) as f64) };
+                        if let Some((start, r0)) = reach0_from_start(&d, &dist) {
+                            if res.len() < k.min(r0) && st.fail.is_none() {
+                                st.fail = Some(format!("vector_search returned {} results for k={} although {} vectors are reachable from node {}", res.len(), k, r0, start));
+                            }
+                        }
+                    }
+                } else if st.fail.is_none() {
+                    st.fail = Some("the store does not hold the vector index".into());
+                }
                 let b = db.batch_vector_search("Doc", "emb", &[f32v(&q, 0), f32v(&q, 0)], k, ef);
                 match b {
                     Ok(bs) => {
@@ -1710,6 +1977,15 @@ fn case_engine(r: &mut Rng, out: &mut Out) {
         st.fail = Some("vector_search on a missing index did not fail".into());
     }
     let mut tags = vec!["engine".into(), format!("engine-metric={}", mt.name())];
+    // observation only (C14's subject, not C18's: the index is a snapshot taken by create_vector_index):
+    // a node deleted from the database afterwards is still returned by vector_search
+    if db.delete_node(ids[0]) {
+        if let Ok(res) = db.vector_search("Doc", "emb", &f32v(&vecs[0], 0), n, Some(n + 10)) {
+            if res.iter().any(|(i, _)| *i == ids[0]) {
+                tags.push("engine-index-returns-deleted-node(observation)".into());
+            }
+        }
+    }
     if shorts > 0 {
         tags.push("shortfall-unclassified".into());
     }
@@ -1746,7 +2022,16 @@ fn main() {
     }
     for i in 0..a.cases {
         match i % 20 {
-            0 | 1 | 2 | 3 => case_kernel(&mut r, &mut out, None),
+            0 | 1 | 2 => case_kernel(&mut r, &mut out, None),
+            3 => match (i / 20) % 4 {
+                0 => case_kernel(&mut r, &mut out, None),
+                1 => case_bquant(&mut r, &mut out),
+                2 => case_pquant(&mut r, &mut out),
+                _ => {
+                    case_storage(&mut r, &mut out);
+                    case_zonemap(&mut r, &mut out);
+                }
+            },
             4 => case_kernel_float(&mut r, &mut out),
             5 => case_brute(&mut r, &mut out),
             6 => {
